@@ -19,7 +19,7 @@ from harness import simcfg
 from harness.core import CaseResult, Fail
 from refmodel.poly import zeros
 
-NUS = [1e-2, 1e-4, 1.0, 50.0]
+NUS = [1e-2, 1e-4, 1.0, 50.0, 1e-6, 1e-9]  # incl. viscosities below single-precision eps (water in SI units is 1e-6)
 CFLS = [0.1, 0.05, 0.5, 1.0]
 PREFACS = [1.0, 0.5, 0.1]
 VELS = ["zero", "uniform", "spike", "spike-corner", "alternating", "one-component"]
